@@ -7,7 +7,7 @@ from vmon.oracle import geometry as G
 
 PROPERTY = "C17"
 RULE = ("(A) every ordered pair of the 97 elements of the radius table as a two-atom structure at distance "
-        "cutoff-1e-3 and cutoff+1e-3, placed directly or so that the nearest image lies across a face, an edge or a "
+        "cutoff-/+1e-3 and cutoff-/+2e-6, placed directly or so that the nearest image lies across a face, an edge or a "
         "corner of an orthorhombic or triclinic cell (the number of faces crossed is measured after wrapping); "
         "(B) random structures of 2-14 atoms in no cell / orthorhombic / triclinic cells with widths above the largest "
         "cutoff. Oracle: brute force over 125 images with the harness's own statement of the rule (radii and non-metal "
@@ -153,7 +153,9 @@ def run_case(case, ctx):
         nontrivial = False
         for e2, sign, pl in case["items"]:
             c = cutoff(e1, e2, radii, nonmetals)
-            d = c + sign * 1e-3
+            margin = 1e-3 if rng.integers(3) else 2e-6      # also much closer to the cutoff than 1e-3 (still far from float noise)
+            d = c + sign * margin
+            st.seen("margin", margin)
             kind = "ortho" if rng.integers(2) else "tri"
             cell = rand_cell(rng, kind, 12.5, 16.0)
             ncross = {"direct": 0, "face": 1, "edge": 2, "corner": 3}[pl]
@@ -179,7 +181,7 @@ def run_case(case, ctx):
             crossed = int(np.sum((f2 < 0) | (f2 >= 1)))
             p2 = G.wrap(cell, p2raw[None, :])[0]
             pos = np.array([p1, p2])
-            r = check([e1, e2], pos, cell, ctx, st, radii, nonmetals, "pair %s-%s at cutoff%+.0e via %d faces" % (e1, e2, sign * 1e-3, crossed),
+            r = check([e1, e2], pos, cell, ctx, st, radii, nonmetals, "pair %s-%s at cutoff%+.0e via %d faces" % (e1, e2, sign * margin, crossed),
                       metamorphic_rng=rng if rng.integers(8) == 0 else None)
             st.seen("pair_class", "%s/%d-faces/%s" % ("below" if sign < 0 else "above", crossed, kind))
             st.count("element_pairs_x_sides")
